@@ -218,6 +218,7 @@ static void verify_all(world_t *w, const unsigned char *imprint, size_t n, int h
 	KSI_DataHash_free(h);
 }
 
+static void part_documents(void);
 static void run(void) {
 	int pol, variant;
 	for (pol = 0; pol < P_NPOL; pol++) for (variant = 0; variant < NSIGV; variant++) {
@@ -302,6 +303,106 @@ static void run(void) {
 			world_close(&w);
 			vf_case_end(1);
 		}
+	}
+	part_documents();
+}
+
+/* ---- convenience interfaces that take the document itself or rely on the context-wide anchors: KSI_Signature_verifyDocument hashes the
+ * bytes with the signature's own input algorithm and verifies under the general policy, KSI_verifyDataHash / KSI_verifySignature use
+ * the context's anchors (here: the extender, which reproduces the signature's calendar chain) */
+static void part_documents(void) {
+	static const int ALGS[] = {RH_SHA256, RH_SHA384, RH_SHA512, RH_RIPEMD160};
+	static const char D0[] = "C02 document: bytes that were really signed\n";
+	size_t ai;
+	for (ai = 0; ai < sizeof ALGS / sizeof *ALGS; ai++) {
+		world_t w;
+		unsigned char doc[128], im[RH_MAX_IMPRINT];
+		size_t dn = sizeof D0 - 1, i, il;
+		vbuf sb;
+		KSI_DataHash *h;
+		int rc, bit;
+		if (!ref_backend_supports(ALGS[ai])) continue;
+		if (!vf_case_begin("doc:document-bytes:alg%d", ALGS[ai])) continue;
+		world_open(&w, P_KEY, 0);
+		/* the same signature shape for the hash of D0 under ALGS[ai]; its authentication record is signed with the key whose certificate
+		 * the context-wide publications file (fetched from the context's publications URL) lists */
+		w.model.ch[0].input_len = ref_imprint(ALGS[ai], D0, dn, w.model.ch[0].input);
+		if (rs_fix(&w.model, RS_FIX_INPUTS | RS_FIX_CAL_IN | RS_FIX_TAIL) != 0) vf_harness_error("fixture: signature for a real document");
+		rk_sign_auth_record(&w.model, &fx_auth_cert);
+		{
+			uint64_t times[1] = {FX_P0};
+			unsigned char hashes[1][RH_MAX_IMPRINT];
+			size_t hlens[1];
+			const rk_cert *certs[1] = {&fx_auth_cert};
+			unsigned char root[RH_MAX_IMPRINT];
+			size_t rl = 0;
+			rs_aggr_root(&w.model, 0, root, &rl, NULL);
+			fx_cal_root(root, rl, FX_P0, hashes[0], &hlens[0]);
+			vb_reset(&FXS.pubfile);
+			fx_make_pubfile(&FXS.pubfile, 1, times, hashes, hlens, 1, certs, &fx_pub_signer);
+			FXS.pubfile_mode = 0;
+			if (KSI_CTX_setPublicationUrl(w.ctx, "http://pub.fx.test/ksi-publications.bin") != KSI_OK) vf_harness_error("setPublicationUrl");
+		}
+		vb_init(&sb);
+		rs_serialize(&w.model, &sb);
+		KSI_Signature_free(w.sig); w.sig = NULL;
+		if (KSI_Signature_parseWithPolicy(w.ctx, sb.p, sb.n, KSI_VERIFICATION_POLICY_EMPTY, NULL, &w.sig) != KSI_OK) vf_harness_error("document fixture signature refused");
+		vb_free(&sb);
+		rs_aggr_root(&w.model, 0, FXS.root, &FXS.root_len, NULL);
+		w.vc.signature = w.sig;
+		/* the document itself */
+		rc = KSI_Signature_verifyDocument(w.sig, w.ctx, D0, dn);
+		vf_count("impl_calls", 1);
+		vf_outcome("document:own:%s", rc == KSI_OK ? "OK" : "error");
+		if (rc != KSI_OK) vf_fail("own-document-refused", "KSI_Signature_verifyDocument refused the signed document itself (algorithm %d): 0x%x", ALGS[ai], rc);
+		if (rc != KSI_OK && getenv("VF_DEBUG")) KSI_ERR_statusDump(w.ctx, stderr);
+		rc = KSI_verifySignature(w.ctx, w.sig);
+		vf_count("impl_calls", 1);
+		if (rc != KSI_OK) vf_fail("own-document-refused", "KSI_verifySignature (context-wide anchors) refused the fixture signature: 0x%x", rc);
+		il = ref_imprint(ALGS[ai], D0, dn, im);
+		h = mk_hash(w.ctx, im, il);
+		rc = KSI_verifyDataHash(w.ctx, w.sig, h);
+		vf_count("impl_calls", 1);
+		vf_outcome("convenience:verifyDataHash:own:%s", rc == KSI_OK ? "OK" : "error");
+		if (rc != KSI_OK) vf_fail("own-document-refused", "KSI_verifyDataHash refused the hash of the signed document (algorithm %d): 0x%x", ALGS[ai], rc);
+		KSI_DataHash_free(h);
+		/* every single-bit change of the document, every proper prefix, one more byte, the empty document */
+		for (i = 0; i < dn; i++) for (bit = 0; bit < 8; bit++) {
+			memcpy(doc, D0, dn);
+			doc[i] ^= (unsigned char)(1u << bit);
+			rc = KSI_Signature_verifyDocument(w.sig, w.ctx, doc, dn);
+			vf_count("impl_calls", 1);
+			if (rc == KSI_OK) vf_fail("foreign-document-accepted", "KSI_Signature_verifyDocument accepted the document with bit %d of byte %zu changed (algorithm %d)", bit, i, ALGS[ai]);
+			else vf_outcome("document:bit-changed:%s", rc == KSI_VERIFICATION_FAILURE ? "verification-failure" : "other-error");
+			if (bit == 0 && (i % 8) == 0) {
+				il = ref_imprint(ALGS[ai], doc, dn, im);
+				h = mk_hash(w.ctx, im, il);
+				rc = KSI_verifyDataHash(w.ctx, w.sig, h);
+				vf_count("impl_calls", 1);
+				if (rc == KSI_OK) vf_fail("foreign-document-accepted", "KSI_verifyDataHash accepted the hash of another document (byte %zu changed, algorithm %d)", i, ALGS[ai]);
+				KSI_DataHash_free(h);
+			}
+		}
+		memcpy(doc, D0, dn); doc[dn] = 0;
+		for (i = 0; i <= dn + 1; i++) {
+			if (i == dn) continue;
+			rc = KSI_Signature_verifyDocument(w.sig, w.ctx, doc, i);
+			vf_count("impl_calls", 1);
+			if (rc == KSI_OK) vf_fail("foreign-document-accepted", "KSI_Signature_verifyDocument accepted %zu bytes of the %zu-byte document (algorithm %d)", i, dn, ALGS[ai]);
+			else vf_outcome("document:other-length:%s", rc == KSI_VERIFICATION_FAILURE ? "verification-failure" : "other-error");
+		}
+		/* the document hashed with another algorithm than the signature's input algorithm */
+		{
+			int oa = ALGS[ai] == RH_SHA256 ? RH_SHA512 : RH_SHA256;
+			il = ref_imprint(oa, D0, dn, im);
+			h = mk_hash(w.ctx, im, il);
+			rc = KSI_verifyDataHash(w.ctx, w.sig, h);
+			vf_count("impl_calls", 1);
+			if (rc == KSI_OK) vf_fail("foreign-document-accepted", "KSI_verifyDataHash accepted the document hashed with algorithm %d for a signature over algorithm %d", oa, ALGS[ai]);
+			KSI_DataHash_free(h);
+		}
+		world_close(&w);
+		vf_case_end(1);
 	}
 }
 
